@@ -34,6 +34,8 @@ CLAIMED = {
          "Values are opaque tokens for TLC; expected quantisation comes from an independent table."),
  "C14": ("model_checking", "5 C14", "CfbLock (TLA+ model of the writer-preferring RwLock and per-call lock programs) model checked with TLC on programs extracted from the real library under the cfg(cfb_verif) instrumented lock; Trace_Lock validates real multi-threaded runs (NonReentrant, mutual exclusion, linearisable lengths, deadlock on stall)",
          "Every interleaving of 2-3 readers and the handle thread over the extracted programs; the schedule-independent NonReentrant rule is checked on every recorded acquisition, so the hazard is caught whether or not a run deadlocks."),
+ "C18": ("model_checking", "5 C18", "the same TLC-validated script under every configuration (two runs, std::fs::File, chunked/Interrupted in-memory backends, several max_buffer_size values, V3/V4); Trace_Config (TLA+) requires identical results and byte-identical images within a version/buffer group",
+         "Every run is judged against the same deterministic model, so logical outcomes coincide; byte identity is compared step by step with pinned storage times."),
 }
 
 HOOK_COMMITS = ["8fb4cf3"]
